@@ -233,7 +233,8 @@ def rule_include_scope(ctx, px):
     for st, gd in pyfront.walk_guarded(f.node.body):
         adds = (isinstance(st, ast.AugAssign) and mentions_support(st.value)) or \
             (isinstance(st, ast.Expr) and isinstance(st.value, ast.Call) and isinstance(st.value.func, ast.Attribute) and st.value.func.attr in ("extend", "append")
-             and any(mentions_support(a) for a in st.value.args))
+             and any(mentions_support(a) for a in st.value.args)) or \
+            (isinstance(st, ast.For) and mentions_support(st.iter))      # a loop over the support files that appends each
         if adds:
             found = True
             terms = pyfront.guard_terms(gd)
